@@ -337,3 +337,25 @@ C(f"{F}:Parser.proc_macro_arg", params={"self": "obj:Parser", "a": "seq[val]", *
 
 C(f"{F}:Parser.set_expr_context", params={"self": "obj:Parser", "node": "obj:ast.Starred", "context": "union[const:Load|const:Store|const:Del]"},
   ensures=["result is node", "node.ctx is context"], modifies=["node.ctx"], raises=[], properties=["C04"])
+
+# `a?` / `a??` (and the chain `a?.b?`): a call of __xonsh__.help / superhelp spanning from the first atom to the last question mark(s)
+HELP_FN = lambda k, nm: f"(atoms[{k}][1].is_exact_type('??')) == {nm == 'superhelp'}"
+C(f"{F}:Parser.expand_help", params={"self": "obj:Parser", "atoms": "objseq[(obj:ast.Name, Tok)]"}, inline=INL,
+  loops={0: {"types": {"node": "opt[obj:ast.Call#help]"},
+             "inv": ["implies(_i == 0, is_none(node))", "implies(_i > 0, not is_none(node))",
+                     "implies(_i > 0 and atoms[_i - 1][1].is_exact_type('??'), is_translation(node.func, '__xonsh__.superhelp'))",
+                     "implies(_i > 0 and not atoms[_i - 1][1].is_exact_type('??'), is_translation(node.func, '__xonsh__.help'))",
+                     "implies(_i > 0, node_start(node) == node_start(atoms[0][0]) and node_end(node) == atoms[_i - 1][1].end)",
+                     "implies(_i > 0, all_located(node.func, node.lineno, node.col_offset, node.end_lineno, node.end_col_offset))",
+                     "implies(_i == 1, node.args[0] is atoms[0][0])",
+                     "implies(_i > 1, isinstance(node.args[0], ast.Attribute) and node.args[0].attr == atoms[_i - 1][0].id and node_start(node.args[0]) == node_start(node) and node_end(node.args[0]) == node_end(node))"]}},
+  ensures=["implies(len(atoms) == 0, is_none(result))", "implies(len(atoms) > 0, not is_none(result))",
+           # the documented translations of the two operators
+           "implies(len(atoms) == 1 and not atoms[0][1].is_exact_type('??'), is_translation(result, '__xonsh__.help(H0)', atoms[0][0]))",
+           "implies(len(atoms) == 1 and atoms[0][1].is_exact_type('??'), is_translation(result, '__xonsh__.superhelp(H0)', atoms[0][0]))",
+           # chains: the outermost call is the LAST operator's, applied to `<previous>.name`; it spans the whole chain
+           "implies(len(atoms) > 1 and atoms[len(atoms) - 1][1].is_exact_type('??'), is_translation(result.func, '__xonsh__.superhelp'))",
+           "implies(len(atoms) > 1 and not atoms[len(atoms) - 1][1].is_exact_type('??'), is_translation(result.func, '__xonsh__.help'))",
+           "implies(len(atoms) > 1, isinstance(result.args[0], ast.Attribute) and result.args[0].attr == atoms[len(atoms) - 1][0].id)",
+           "implies(len(atoms) > 0, node_start(result) == node_start(atoms[0][0]) and node_end(result) == atoms[len(atoms) - 1][1].end)"],
+  raises=[], pure=True, properties=["C05", "C04"])
